@@ -4,7 +4,31 @@ from .common import grid_check
 
 
 def run(ctx):
-    grid_check(ctx, 'c02', nontrivial_note='c02-nontrivial', also=('c15', 'c05'),
+    # directed: every surface-plant type with the Ramey wellbore model on and redrilling actually reached (the wellbore module
+    # re-tiles the produced temperature at each redrilling; a plant that rebuilds it from parts sees something else)
+    from .. import gen
+    extra = []
+    plants = [(2, 6), (2, 5), (2, 9), (2, 7), (1, 1), (1, 2), (1, 3), (1, 4), (31, 1), (42, 2), (51, 1), (52, 4)]
+    for i in range(ctx.pick(24, 180)):
+        eu, pt = plants[i % len(plants)]
+        cell = (ctx.rng.choice([1, 2, 3]), eu, pt, (3, 4, 1, 2)[(i // len(plants)) % 4])
+        case = gen.synth_case(ctx.rng, cell, costs=False, incentives=False, prices=False, addons=False, overpressure=False,
+                              sdac=False, nseg=1)
+        gen.cset(case, 'Maximum Drawdown', ctx.rng.choice([0.01, 0.02, 0.04]))
+        gen.cset(case, 'Ramey Production Wellbore Model', 1)
+        gen.cset(case, 'Plant Lifetime', ctx.rng.choice([12, 20, 30]) if pt != 7 else 12)
+        gen.cset(case, 'Time steps per year', ctx.rng.choice([2, 4, 10]) if cell[3] in (3, 4) else 2)
+        gen.cset(case, 'Reservoir Depth', gen._round(ctx.rng.uniform(3.0, 4.5), 3))
+        gen.cset(case, 'Gradient 1', gen._round(ctx.rng.uniform(50, 75), 3))
+        gen.cset(case, 'Maximum Temperature', 400)
+        if cell[3] == 4:
+            gen.cset(case, 'Drawdown Parameter', gen._round(ctx.rng.uniform(0.005, 0.02), 4))
+        if cell[3] == 3:
+            gen.cset(case, 'Drawdown Parameter', gen._round(gen._logu(ctx.rng, 3e-5, 3e-4), 6))
+        extra.append({'fn': 'gxv.jobs:run_oracles', 'args': {'text': gen.render(case), 'oracles': ['c02', 'c15', 'c05'],
+                                                             'tag': {'cell': list(cell), 'directed': 'ramey-and-redrilling'}},
+                      'timeout': 600})
+    grid_check(ctx, 'c02', nontrivial_note='c02-nontrivial', also=('c15', 'c05'), extra_jobs=extra,
                required={'heat-extracted': 300, 'net-electricity': 200, 'useful-heat': 200, 'annual-heat-extracted': 300,
                          'annual-pumping': 300, 'annual-net-electricity': 200, 'annual-heat': 150, 'remaining-heat': 300,
                          'contract:integrate': 2000, 'district-heating-balance': 4},
